@@ -222,7 +222,7 @@ def _desugar_ref_patterns(txt: str, dropped: list) -> str:
     return out
 
 
-def cfg_files(S: Sources, tags: set, name: str):
+def _cfg_base(S: Sources):
     dv = S(DIVAN); cf = S(CONFIG); op = S(OPT)
     secs = [ghost("clap / counter stand-ins", STANDINS, kind="trusted")]
     for nm in ("Action", "RunIgnored", "SortingAttr"):
@@ -236,6 +236,38 @@ def cfg_files(S: Sources, tags: set, name: str):
     secs.append(dsec)
     secs.append(ghost("Divan::counter_mut (assumed)", COUNTER_MUT, kind="trusted"))
     secs.append(ghost("config spec", SPEC, kind="spec"))
+    return secs
+
+
+def builder_files(S: Sources, name: str):
+    """The builder calls equivalent to the run-time flags: each sets its own field to the value given and nothing else."""
+    dv = S(DIVAN)
+    secs = _cfg_base(S)
+    BUILDERS = [
+        ("run_ignored", "Divan { run_ignored: RunIgnored::Yes, ..self }"),
+        ("run_only_ignored", "Divan { run_ignored: RunIgnored::Only, ..self }"),
+        ("sample_count", "Divan { bench_options: BenchOptions { sample_count: Some(count), ..self.bench_options }, ..self }"),
+        ("sample_size", "Divan { bench_options: BenchOptions { sample_size: Some(count), ..self.bench_options }, ..self }"),
+        ("min_time", "Divan { bench_options: BenchOptions { min_time: Some(time), ..self.bench_options }, ..self }"),
+        ("max_time", "Divan { bench_options: BenchOptions { max_time: Some(time), ..self.bench_options }, ..self }"),
+        ("skip_ext_time", "Divan { bench_options: BenchOptions { skip_ext_time: Some(skip), ..self.bench_options }, ..self }"),
+    ]
+    bsecs = []
+    for fname, want in BUILDERS:
+        fi = dv.find_fn(fname, impl=r"impl Divan\b")
+        # Verus has no `mut self`: the receiver is taken as `self` and moved into a mutable local that the body uses instead
+        bsecs.append(code_fn(dv, fi, f"Divan::{fname}", ret="r", clauses=f"ensures r == ({want}),",
+                             sig_subst=[(r"\bmut\s+self\b", "self", 1)],
+                             subst=[(r"\bself\b", "this", "any"), (r"^\s*\{", "{ let mut this = self;", 1)]))
+    secs += wrap_impl("impl Divan", bsecs)
+    canary = list(secs) + [ghost("canaries", "pub fn canary_builder(d: Divan) { let e = d.skip_ext_time(false); assert(false); }\n"
+                                 "pub fn canary_builder2(d: Divan) { let e = d.run_only_ignored(); assert(false); }", kind="lemma")]
+    return [VerusFile(f"{name}_builders", secs), VerusFile(f"{name}_builders_canary", canary, expect_fail=True)]
+
+
+def cfg_files(S: Sources, tags: set, name: str):
+    dv = S(DIVAN)
+    secs = _cfg_base(S)
     f = dv.find_fn("config_with_args", impl=r"impl Divan\b")
     txt, line = rsx.region(f, r'self \. action = if matches \. get_flag \( "list" \)', r"self \. counter_mut \( CyclesCount :: new \( count \) \) ; \}")
     dropped = []
@@ -268,27 +300,7 @@ def cfg_files(S: Sources, tags: set, name: str):
                    text="impl Divan {\npub fn config_region(&mut self, matches: &ArgMatches)\n" + _clauses(tags, None) + "{\n" +
                         "\n".join(f"    self.config_chunk_{ci}(matches);" for ci in range(len(chunks))) + "\n}\n}")
     secs += secs_code + [glue]
-    if "C15" in tags:
-        # the builder calls equivalent to the run-time flags: each sets its own field to the value given and nothing else
-        BUILDERS = [
-            ("run_ignored", "Divan { run_ignored: RunIgnored::Yes, ..self }"),
-            ("run_only_ignored", "Divan { run_ignored: RunIgnored::Only, ..self }"),
-            ("sample_count", "Divan { bench_options: BenchOptions { sample_count: Some(count), ..self.bench_options }, ..self }"),
-            ("sample_size", "Divan { bench_options: BenchOptions { sample_size: Some(count), ..self.bench_options }, ..self }"),
-            ("min_time", "Divan { bench_options: BenchOptions { min_time: Some(time), ..self.bench_options }, ..self }"),
-            ("max_time", "Divan { bench_options: BenchOptions { max_time: Some(time), ..self.bench_options }, ..self }"),
-            ("skip_ext_time", "Divan { bench_options: BenchOptions { skip_ext_time: Some(skip), ..self.bench_options }, ..self }"),
-        ]
-        bsecs = []
-        for fname, want in BUILDERS:
-            fi = dv.find_fn(fname, impl=r"impl Divan\b")
-            # Verus has no `mut self`: the receiver is taken as `self` and moved into a mutable local that the body uses instead
-            bsecs.append(code_fn(dv, fi, f"Divan::{fname}", ret="r", clauses=f"ensures r == ({want}),",
-                                 sig_subst=[(r"\bmut\s+self\b", "self", 1)],
-                                 subst=[(r"\bself\b", "this", "any"), (r"^\s*\{", "{ let mut this = self;", 1)]))
-        secs += wrap_impl("impl Divan", bsecs)
-    canary = list(secs) + [ghost("canaries", ("pub fn canary_builder(d: Divan) { let e = d.skip_ext_time(false); assert(false); }\n" if "C15" in tags else "") +
-                                 "pub fn canary_cfg(d: Divan, m: ArgMatches) { let mut d = d; d.config_region(&m); assert(false); }\n" +
+    canary = list(secs) + [ghost("canaries", "pub fn canary_cfg(d: Divan, m: ArgMatches) { let mut d = d; d.config_region(&m); assert(false); }\n" +
                                  "\n".join(f"pub fn canary_chunk_{ci}(d: Divan, m: ArgMatches) {{ let mut d = d; d.config_chunk_{ci}(&m); assert(false); }}" for ci in range(len(chunks))),
                                  kind="lemma")]
     return [VerusFile(f"{name}_cfg", secs), VerusFile(f"{name}_cfg_canary", canary, expect_fail=True)]
